@@ -292,6 +292,10 @@ def run(ctx, budget):
         except BaseException as e:
             ctx.violation('C10/unfiltered-read-raised', '%s: %s' % (type(e).__name__, e), {'file': data.hex()})
             continue
+        if [m['ordinal'] for m in msgs] != list(range(len(msgs))):
+            ctx.violation('C10/message-index-not-the-ordinal', 'the unfiltered read of a freshly indexed log reports message indices %s; '
+                          'the index of a message is its ordinal among all messages in the file, 0..%d'
+                          % ([m['ordinal'] for m in msgs][:16], len(msgs) - 1), {'file': data.hex()})
         for _ in range(6 if not ctx.thorough else 12):
             one_case(ctx, data, path, msgs, lines, pending)
         # all 32 flag combinations on one criteria choice
